@@ -24,7 +24,7 @@ RULE = ('values: seeded random JSON documents (nesting to depth 6, empty contain
 ASSUMPTIONS = ['json.loads of the standard library is the reference model; only spellings valid in both JSON and ES5 are '
                'generated (no U+2028/U+2029 raw in strings)']
 BUDGET_S = {'quick': 60, 'thorough': 600}
-REQUIRED_HITS = ['ast_to_dict', 'LiteralEval', 'GroupAsMap', 'GroupAsList', 'wide_value']
+REQUIRED_HITS = ['ast_to_dict', 'LiteralEval', 'GroupAsMap', 'GroupAsList', 'wide_value', 'word_string']
 FLOOR = {'quick': 5000, 'thorough': 60000}
 
 
@@ -131,7 +131,21 @@ WS = ['', ' ', '  ', '\n', '\t', ' \n ', '\r\n']
 KEYS = ['a', 'b', 'key', '', '__proto__', '0', '1', '1.5', 'true', 'a b', 'constructor', '\xe9', 'toString', 'n']
 
 
+# strings whose *content* is a word that means something to JavaScript, to Python or to a converter
+# (identifier-like content is where a value-based special case would bite; a string is a string)
+WORDS = ['undefined', 'null', 'true', 'false', 'NaN', 'Infinity', '-Infinity', 'None', 'True', 'False', 'this',
+         'arguments', 'eval', 'prototype', 'length', 'get', 'set', 'of', 'let', 'yield', 'async', 'await', 'static',
+         '__class__', '__dict__', '__proto__', 'constructor', 'hasOwnProperty', 'valueOf', 'toString',
+         '0', '-0', '-1', '1e3', '0x10', '010', '1.', '.5', '[]', '{}', '[object Object]', '""', "''", 'n', 'f', 'var n',
+         'break', 'case', 'catch', 'continue', 'debugger', 'default', 'delete', 'do', 'else', 'finally', 'for',
+         'function', 'if', 'in', 'instanceof', 'new', 'return', 'switch', 'throw', 'try', 'typeof', 'var', 'void',
+         'while', 'with', 'class', 'const', 'enum', 'export', 'extends', 'import', 'super', ' undefined', 'undefined ',
+         'Undefined', 'NULL', 'nan', 'inf', 'nil', 'u0041', 'x41', 'use strict', ';', ',', ':', '=', '-', '+', '!', '~']
+
+
 def gen_string(ctx, rng):
+    if rng.random() < 0.12:
+        return json.dumps(rng.choice(WORDS))
     parts = []
     for _ in range(rng.randint(0, 6)):
         r = rng.random()
@@ -264,6 +278,16 @@ def run(ctx):
                 for form in FORMS:
                     for fold in (False, True):
                         check(ctx, jtext, form, fold)
+        # every such word as the value, as an element, as a member value and as a key
+        for k, word in enumerate(WORDS):
+            if k % ctx.nshards == ctx.shard:
+                ctx.hit('word_string')
+                q = json.dumps(word)
+                for jtext in (q, '[%s]' % q, '[1, %s, %s]' % (q, q), '{"k": %s}' % q, '{%s: 1}' % q, '{%s: %s}' % (q, q),
+                              '{"a": {%s: [%s]}}' % (q, q)):
+                    for form in FORMS:
+                        for fold in (False, True):
+                            check(ctx, jtext, form, fold)
         # every number spelling and every escape on its own
         for k, num in enumerate(NUMBERS):
             if k % ctx.nshards == ctx.shard:
